@@ -82,6 +82,12 @@ class SqliteModel:
             return V.bconst(py)
         if isinstance(py, int):
             return self._int(py)
+        if isinstance(py, float):
+            from fractions import Fraction
+            fr = Fraction(py)
+            if abs(fr.numerator) > 1000 or fr.denominator > 1000:
+                raise Unmodelled(f"REAL parameter {py} outside the modelled range")
+            return RealV(V.FALSE, V.bv(fr.numerator), V.bv(fr.denominator))
         if isinstance(py, str):
             return V.sconst(py)
         raise Unmodelled(f"parameter of type {type(py).__name__}")
@@ -471,6 +477,34 @@ class SqliteModel:
         self._guard(x.null, z3.BVSNegNoOverflow(x.val))
         return IntV(x.null, z3.If(x.val < 0, -x.val, x.val))
 
+    def _rounding(self, a, mode):
+        if len(a) == 2:
+            p2 = a[1]
+            if not (p2.kind == "int" and z3.is_bv_value(p2.val) and p2.val.as_long() == 0):
+                raise Unmodelled("ROUND with a precision other than 0")
+        elif len(a) != 1:
+            raise Unmodelled("rounding function arity")
+        x = a[0]
+        if x.kind == "null":
+            return V.null_of("real")
+        if x.kind not in ("int", "bool", "real"):
+            raise Unmodelled("rounding of text")
+        return V.real_round(V.to_real(x), mode, self._guard)
+
+    def fn_ROUND(self, a):       # SQLite: nearest, midpoints away from zero; the result is REAL
+        return self._rounding(a, "round")
+
+    def fn_FLOOR(self, a):
+        return self._rounding(a, "floor")
+
+    def fn_CEIL(self, a):
+        return self._rounding(a, "ceil")
+
+    fn_CEILING = fn_CEIL
+
+    def fn_TRUNC(self, a):
+        return self._rounding(a, "trunc")
+
     def fn_NULLIF(self, a):
         x, y = V.unify(a[0], a[1])
         eq = self._compare("=", x, y)
@@ -518,6 +552,27 @@ class SqliteModel:
             b2 = dict(bindings)
             b2[q] = Slot.null_row(self.db.specs[tname])
             yield from self._combos(sources, i + 1, b2, z3.And(cond, z3.Not(z3.Or(matches)) if matches else V.TRUE))
+
+    def ev_insub(self, t):
+        """x [NOT] IN (SELECT col FROM ...): SQL's three-valued membership - true if some row's value equals x, else
+        NULL if x is NULL or some row's value is NULL (and there is at least one row), else false."""
+        self._use("IN (SELECT)")
+        x = self.ev(t[2])
+        sel = t[3][1]
+        if len(sel["cols"]) != 1 or sel["limit"] is not None:
+            raise Unmodelled("IN sub-query with several columns or LIMIT")
+        res = BoolV(V.FALSE, V.FALSE)
+        for bindings, cond in self._combos(self._sources(sel), 0, {}, V.TRUE):
+            self.scope.append(bindings)
+            try:
+                w = V.keep(self.truth(self.ev(sel["where"]))) if sel["where"] is not None else V.TRUE
+                v = self.ev(sel["cols"][0][0])
+            finally:
+                self.scope.pop()
+            member = z3.And(cond, w)
+            eq = self._compare("=", x, v)
+            res = V.or3(res, V.and3(BoolV(V.FALSE, member), eq))
+        return V.not3(res) if t[1] else res
 
     def ev_exists(self, t):
         self._use("EXISTS")
